@@ -476,21 +476,30 @@ class Facts:
         return r
 
     def bases_of(self, qn, transitive=True):
+        """Template-stripped names of the (transitive) bases.  The walk follows the *instantiated*
+        base names (qnt), so Accept<Distance, Observation> and Accept<g3::Angle, ..> are kept apart."""
         out = []
         seen = set()
-        todo = [qn if qn.startswith("GNU_gama::") or qn in self.classes else "GNU_gama::" + qn]
+        start = qn if qn.startswith("GNU_gama::") or qn in self.classes else "GNU_gama::" + qn
+        rec0 = self.classes.get(start)
+        if rec0 is None:
+            rec0 = self.class_insts.get(qn)
+        todo = [rec0] if rec0 else []
+        seen_recs = set()
         while todo:
-            c = todo.pop()
-            rec = self.classes.get(c)
-            if not rec:
+            rec = todo.pop()
+            if id(rec) in seen_recs:
                 continue
+            seen_recs.add(id(rec))
             for b in rec.get("bases", []):
                 bq = strip_targs(b.get("qn", b.get("t", "")))
                 if bq and bq not in seen:
                     seen.add(bq)
                     out.append(bq)
-                    if transitive:
-                        todo.append(bq)
+                if transitive:
+                    brec = self.class_insts.get(b.get("qnt", "")) or self.classes.get(bq)
+                    if brec is not None:
+                        todo.append(brec)
         return out
 
     def derived_from(self, base):
